@@ -53,6 +53,8 @@ def build_pool(rng):
     g = E.gpg_sig(0, P)
     hdr2 = bytearray(bytes.fromhex(g["other_headers"])); hdr2[7] ^= 1
     add("env_gpg_P_hdr", {"signatures": {PUBHEX[0]: dict(g, other_headers=bytes(hdr2).hex()), PUBHEX[1]: E.gpg_sig(1, P)}, "signed": P})
+    # the primitives take bytes-like data: a bytearray handed in must come back unchanged and give the same verdict every time
+    add("data_ba", bytearray(E.canon(P))); add("ent_gpg", E.gpg_sig(0, P)); add("sig_raw", E.raw_sig(0, P)["signature"])
     return pool, names
 
 
@@ -72,6 +74,8 @@ def call_universe(names, rng):
             for nm in ("key_mgr", "pkg_mgr"):
                 calls.append(["verify_delegation", [w(nm), p(U), p(T), w(False)]])
     calls.append(["verify_signable", [p("tF"), p("K0"), w(1), w(True)]])
+    calls.append(["verify_gpg_signature", [p("ent_gpg"), w(PUBHEX[0]), p("data_ba")]])
+    calls.append(["verify_gpg_signature", [p("ent_gpg"), w(PUBHEX[1]), p("data_ba")]])
     for x in ("P", "P2", "P3", "r1", "tA", "tF", "km1", "K01", "junk_env"):
         calls.append(["canonserialize", [p(x)]])
         calls.append(["checkformat_delegating_metadata", [p(x)]])
@@ -177,9 +181,14 @@ def run(ctx):
                 ctx.violations.append(("property", {"stream": "shuffled order", "case": singles[i]["w"], "impl": o[:200], "model": exp[:200],
                                                     "reason": "the verdict of %s depends on the order of unrelated earlier calls" % calls[i][0]}))
                 break
+    # verdicts before and after every other public entry point of the package ran in the same process
+    core.history_independence(ctx, "verdicts do not depend on what else the package did in the process", [x["w"] for x in singles][:80])
     # wrapping copies: later changes to either side do not affect the other
     wcases = [{"w": wire.case("wrap_isolation", v), "meta": {}} for v in (list(J.FIXED[:14]) + E.PAYLOADS[:3] + [J.rand_json(rng, depth=3) for _ in range(30 if ctx.quick else 400)])
               if isinstance(v, (dict, list))]
+    # tuples are immutable but may hold lists and dicts: those must be copied as well
+    for v in ((1, [2, 3]), {"t": (1, {"k": [1]})}, [([1], {"a": (2, [3])})], ((("deep", [1]),),), {"a": ({"b": ()}, [])}):
+        wcases.append({"w": wire.case("wrap_isolation", v), "meta": {}})
 
     def wrap_oracle(c, io):
         if io.startswith("O") and wire.dec(io[1:]):
